@@ -6,6 +6,9 @@
 #include "nodes/variable/array.h"
 #include "nodes/functions/function.h"
 #include "nodes/loop/control.h"
+#ifdef PSEUDOENGINE2_VERIF
+#include "verif.h"
+#endif
 
 FunctionNode::FunctionNode(
     const Token &token,
@@ -139,6 +142,9 @@ std::unique_ptr<NodeResult> FunctionCallNode::evaluate(PSC::Context &ctx) {
     }
 
     ctx.switchToken = &token;
+#ifdef PSEUDOENGINE2_VERIF
+    PE2Verif::CallGuard verifCallGuard(token, ctx);
+#endif
     try {
         function->run(*functionCtx);
     } catch (ReturnErrSignal&) {
